@@ -8,6 +8,7 @@ import sys
 import traceback
 
 from . import common as C
+from . import fingerprint as FP
 
 
 class Leg:
@@ -21,6 +22,7 @@ class Leg:
     quick_n = 300
     thorough_n = 6000
     shard = 250
+    escalation_cap = 4         # at most this factor on quick_n when the modelled sources changed (lib/fingerprint.py)
     extended_factor = 10       # extended failing-input search: this many times quick_n
 
     def generate(self, rng, n):
@@ -174,9 +176,12 @@ def run_check(prop, tier):
     harness_errors = 0
     tie_breaks = []        # (leg, case, obs)
     oracle_fails = []      # (leg, case, msgs)
+    esc, changed = FP.escalation(pid)
+    if changed:
+        cov["source_changed_since_model_was_written"] = {"files": changed[:12], "quick_case_factor": esc}
     for li, leg in enumerate(prop.legs):
         rng = random.Random(seed * 1000003 + li)
-        n = leg.thorough_n if tier == "thorough" else leg.quick_n
+        n = leg.thorough_n if tier == "thorough" else (leg.quick_n * (1 if leg.exhaustive else min(esc, leg.escalation_cap)))
         cases = []
         cdir = C.VERIF / "corpus" / pid
         if cdir.exists():
